@@ -72,6 +72,7 @@ pub const WSS: &[&str] = &[
     "WHITESPACE = ${ \" \" } COMMENT = _{ \"#\" } ",
     "COMMENT = { \"#\" } ",
     "WHITESPACE = @{ \" \" } COMMENT = ${ \"#\" ~ \"#\"? } ",
+    "WHITESPACE = !{ \" \" } COMMENT = !{ \"#\" ~ \"#\"? } ",
 ];
 pub const SDEFS: &[&str] = &[
     "s = { \"a\" ~ \"b\" }",
@@ -247,6 +248,21 @@ pub fn redex_bodies(k: usize) -> Vec<(String, &'static str)> {
             }
         }
     }
+    // near-redexes of the skipper: the same body under every other repetition operator, and bodies
+    // one step away from the shape (a pass that fires on them is wrong)
+    for a in &strs {
+        for rep in ["+", "?", "{2}", "{1,}", "{,2}", "{1,2}"] {
+            v.push((format!("(!{a} ~ ANY){rep}"), "skip"));
+            v.push((format!("(!{a} ~ ANY){rep} ~ {a}"), "skip"));
+            v.push((format!("(!({a} | \"b\") ~ ANY){rep} ~ ANY?"), "skip"));
+        }
+        v.push((format!("(!{a} ~ ANY) ~ ANY?"), "skip"));
+        v.push((format!("(ANY ~ !{a})*"), "skip"));
+        v.push((format!("(&{a} ~ ANY)*"), "skip"));
+        v.push((format!("(!{a} ~ 'a'..'b')*"), "skip"));
+        v.push((format!("(!{a} ~ ANY ~ ANY)*"), "skip"));
+        v.push((format!("(!{a} ~ !\"b\" ~ ANY)*"), "skip"));
+    }
     v.push(("(!(\"a\" | \"b\" | \"ab\" | \"x\") ~ ANY)*".to_string(), "skip"));
     v.push(("(!(lit | lit2) ~ ANY)*".to_string(), "skip"));
     // concatenator
@@ -357,6 +373,25 @@ pub fn builtin_bodies() -> Vec<String> {
     let unary = [("(", ")?"), ("(", ")*"), ("!(", ")"), ("(", ")+")];
     bodies_by_size(&leaves, &unary, 3).into_iter().flatten().collect()
 }
+/// User rules that carry the names of non-keyword built-ins (the user's definition is the rule).
+pub fn shadowed_builtin_grammars() -> Vec<String> {
+    let leaves = ["NEWLINE", "ASCII_DIGIT", "LETTER", "\"a\"", "ANY"];
+    let unary = [("(", ")?"), ("(", ")*"), ("!(", ")"), ("(", ")+"), ("&(", ")")];
+    let mut v = vec![];
+    for defs in [
+        "NEWLINE = { \"b\" } ASCII_DIGIT = _{ \"a\"? } LETTER = @{ \"a\" ~ \"b\" }",
+        "NEWLINE = ${ \"a\" ~ LETTER? } ASCII_DIGIT = !{ \"b\" ~ \"a\" } LETTER = { ASCII_DIGIT | \"b\" }",
+    ] {
+        for ws in ["", "WHITESPACE = _{ \" \" } "] {
+            for ty in ["", "@"] {
+                for b in bodies_by_size(&leaves, &unary, 3).into_iter().flatten() {
+                    v.push(format!("{ws}{defs} r = {ty}{{ {b} }}"));
+                }
+            }
+        }
+    }
+    v
+}
 pub const BUILTIN_ALPHA: &[char] = &['F', 'g', '0', '8', '\n', '\r', 'é', '\u{7f}'];
 
 /// WHITESPACE / COMMENT bodies of every small shape and modifier (whole grammars).
@@ -364,8 +399,17 @@ pub fn special_body_grammars() -> Vec<String> {
     let by = bodies_by_size(PLAIN_LEAVES, &UNARY[..9], 2);
     let mut v = vec![];
     for special in ["WHITESPACE", "COMMENT"] {
-        for m in ["_", "", "@", "$"] {
-            for b in by.iter().flatten() {
+        for m in ["_", "", "@", "$", "!"] {
+            // sequences / choices / repetitions of two elements (the implicit skip *inside* the special rule)
+            let mut two: Vec<String> = vec![];
+            for x in ["\"a\"?", "\"a\"", "\"x\"", "s"] {
+                for y in ["\"b\"", "\"x\"", "\"a\"*"] {
+                    two.push(format!("{x} ~ {y}"));
+                    two.push(format!("{x} | {y}"));
+                    two.push(format!("({x} ~ {y})+"));
+                }
+            }
+            for b in by.iter().flatten().chain(two.iter()) {
                 v.push(format!("{special} = {m}{{ {b} }} s = {{ \"b\" }} r = {{ \"a\" ~ \"b\" ~ (\"a\" | s)* }}"));
                 v.push(format!("{special} = {m}{{ {b} }} s = ${{ \"b\" ~ \"a\" }} r = !{{ (s ~ \"a\"?)+ }} top = @{{ r ~ \"b\" }}"));
             }
